@@ -352,6 +352,7 @@ def runSql (c : Case) : CaseOut := Id.run do
 
 def run (c : Case) : CaseOut :=
   if (cfgStr c "kind" "").startsWith "sql" then runSql c else
+  Proto.withResets (fun c =>
   let size := cfgInt c "size" 1000
   let ooo := cfgInt c "ooo" 0
   let late := cfgInt c "late" 0
@@ -363,6 +364,6 @@ def run (c : Case) : CaseOut :=
       { size := size, slide := slide, ooo := ooo, lateness := late, now := now } c
   | _ =>
     runWith tumblingMachine (Tumbling.init size ooo late)
-      { size := size, slide := size, ooo := ooo, lateness := late, now := now } c
+      { size := size, slide := size, ooo := ooo, lateness := late, now := now } c) c
 
 end DrvWin
